@@ -30,3 +30,10 @@ c08w_all(const uint32_t *in, uint32_t *out)
 	out[16] = MAX(x, y);
 	out[17] = EQ(x, x) + EQ0(0) + GT(y, y);
 }
+
+/* negative control for the encoder (checks/C08.py, control entries): early-exit compare */
+uint32_t
+c08w_tagcmp(const void *a, const void *b, size_t n)
+{
+	return (uint32_t)(memcmp(a, b, n) == 0);
+}
